@@ -3,9 +3,9 @@
 //! Case line:  `zone <flag> <origin|-> <text-hex> [<expected-origin> <expected-records>]`
 //!   flag `m` : compare with the Lean model if the text is inside the modelled fragment (decided
 //!              from the text alone, see `model_applicable`);
-//!   flag `e` : as `m`, but backslash-digit escapes are allowed when no quoted string stands inside
-//!              parentheses (the author of the line asserts that no escape puts a character >= 128
-//!              into a *name*; true of the printer's output, whose escapes sit in quoted strings);
+//!   flag `e` : as `m`, but backslash-digit escapes are allowed (the author of the line asserts
+//!              that no escape puts a character >= 128 into a *name*; true of the printer's output,
+//!              whose escapes sit in quoted strings);
 //!   flag `i` : implementation-vs-oracle only.
 //!   expected-records : `-` no expectation (malformed stream: only "Ok or Err, never panic/hang"),
 //!              `0` the empty set, else `rec|rec|…` with rec = `owner/type/class/ttl/rdata`,
@@ -120,12 +120,8 @@ fn model_applicable(flag: &str, text: &str) -> bool {
     if low.contains("xn--") {
         return false;
     }
-    if has_backslash_digit(text) {
-        // with a quoted string inside parentheses (not recognised by hickory) the pieces of the
-        // string can end up anywhere, e.g. as an owner name on the next line
-        if flag != "e" || scan(text.as_bytes()).quote_inside_list {
-            return false;
-        }
+    if flag != "e" && has_backslash_digit(text) {
+        return false;
     }
     if low.contains("$include") && text.contains('/') {
         return false;
@@ -145,15 +141,11 @@ fn include_is_safe(text: &str) -> bool {
 // ------------------------------------------------------------------------------------------------
 // known-finding classes (mirrored by decidable predicates in Proofs/C20.lean)
 
-/// What an RFC 1035 §5.1 reader sees in the text: comments (`;` to end of line), quoted strings
-/// with backslash escapes, parentheses.  Mirrored by `Spec.MasterFile.scan` in Lean.
+/// What an RFC 1035 §5.1 reader sees in the text: comments (`;` to end of line) and quoted strings
+/// with backslash escapes.  Mirrored by `Spec.MasterFile.scan` in Lean.
 #[derive(Default, Clone, Copy)]
 struct Scan {
-    /// a quoted string starts inside a parenthesised group
-    quote_inside_list: bool,
-    /// … and contains a semicolon
-    semicolon_inside_quoted_list_item: bool,
-    /// a quoted string outside parentheses contains `\DDD` with DDD >= 10
+    /// a quoted string (inside parentheses or not) contains `\DDD` with DDD >= 10
     decimal_escape: bool,
 }
 
@@ -162,23 +154,16 @@ fn scan(t: &[u8]) -> Scan {
     enum M {
         Normal,
         Comment,
-        Quote(bool),
+        Quote,
     }
     let mut s = Scan::default();
-    let (mut mode, mut paren, mut i) = (M::Normal, false, 0);
+    let (mut mode, mut i) = (M::Normal, 0);
     while i < t.len() {
         let c = t[i];
         match mode {
             M::Normal => match c {
                 b';' => mode = M::Comment,
-                b'(' => paren = true,
-                b')' => paren = false,
-                b'"' => {
-                    if paren {
-                        s.quote_inside_list = true;
-                    }
-                    mode = M::Quote(paren);
-                }
+                b'"' => mode = M::Quote,
                 b'\\' => i += 1,
                 _ => {}
             },
@@ -187,12 +172,11 @@ fn scan(t: &[u8]) -> Scan {
                     mode = M::Normal
                 }
             }
-            M::Quote(in_list) => match c {
+            M::Quote => match c {
                 b'"' => mode = M::Normal,
-                b';' if in_list => s.semicolon_inside_quoted_list_item = true,
                 b'\\' => {
                     if i + 3 < t.len() && t[i + 1..i + 4].iter().all(u8::is_ascii_digit) {
-                        if !in_list && !(t[i + 1] == b'0' && t[i + 2] == b'0') {
+                        if !(t[i + 1] == b'0' && t[i + 2] == b'0') {
                             s.decimal_escape = true;
                         }
                         i += 3;
@@ -220,22 +204,26 @@ fn label_loadable(l: &[u8]) -> bool {
     l.first() != Some(&b'-') && l.iter().all(|c| c.is_ascii_alphanumeric() || matches!(c, b'-' | b'.'))
 }
 
-fn expected_has_unloadable_label(expected: &str) -> bool {
+fn expected_labels(expected: &str) -> Vec<Vec<u8>> {
     // every name token in an expected record is `F:<hex>.<hex>…`
-    expected.split(|c| c == '/' || c == ',' || c == '|').filter(|t| t.starts_with("F:")).any(|t| {
-        parse_labels(&t[2..]).map(|ls| ls.iter().any(|l| !label_loadable(l))).unwrap_or(false)
-    })
+    expected
+        .split(|c| c == '/' || c == ',' || c == '|')
+        .filter(|t| t.starts_with("F:"))
+        .filter_map(|t| parse_labels(&t[2..]))
+        .flatten()
+        .collect()
 }
 
+/// Known-finding classes, narrowest first (each mirrored by a decidable predicate in
+/// Spec/MasterFile.lean): a stated name has a label with `;` (`nameHasSemicolon`), a label hickory
+/// cannot produce (`nameNotLdh`), a quoted string has `\DDD` with DDD >= 10 (`scan`).
 fn classify(text: &str, expected: &str) -> &'static str {
-    let sc = scan(text.as_bytes());
-    if expected_has_unloadable_label(expected) {
+    let labels = expected_labels(expected);
+    if labels.iter().any(|l| l.contains(&b';')) {
+        "escaped-semicolon-in-item"
+    } else if labels.iter().any(|l| !label_loadable(l)) {
         "name-label-not-ldh"
-    } else if sc.semicolon_inside_quoted_list_item {
-        "semicolon-inside-quoted-list-item"
-    } else if sc.quote_inside_list {
-        "quote-inside-list"
-    } else if sc.decimal_escape {
+    } else if scan(text.as_bytes()).decimal_escape {
         "decimal-escape-arithmetic"
     } else {
         ""
@@ -669,8 +657,8 @@ struct Printer<'a> {
     tags: Vec<&'static str>,
     /// a name was printed with a `\DDD` escape (the model does not cover what IDNA does with it)
     name_ddd: bool,
-    /// avoid the layouts hickory is known to mishandle (quoted strings inside parentheses,
-    /// `\DDD` with DDD >= 10): every oracle failure in such a file is a new violation
+    /// avoid the layout hickory is known to mishandle (`\DDD` with DDD >= 10; and no names with
+    /// arbitrary octets): every oracle failure in such a file is a new violation
     clean: bool,
 }
 
@@ -978,12 +966,11 @@ impl<'a> Printer<'a> {
         let paren = self.r.chance(1, 4);
         let (i, j) = if paren {
             let i = self.r.below(fields.len() as u64 + 1) as usize;
-            let mut j = self.r.range(i as u64, fields.len() as u64) as usize;
-            if self.clean {
-                // stop the group before the first quoted string
-                j = (i..j).find(|&k| fields[k].starts_with('"')).unwrap_or(j);
-            }
+            let j = self.r.range(i as u64, fields.len() as u64) as usize;
             self.tag("parens");
+            if fields[i..j].iter().any(|f| f.starts_with('"')) {
+                self.tag("parens.quoted-item");
+            }
             (i, j)
         } else {
             (usize::MAX, usize::MAX)
@@ -1207,6 +1194,26 @@ fn token_soup(r: &mut Rng) -> String {
     s
 }
 
+/// the same few owners / types / data again and again with varying TTL, class and letter case:
+/// exercises the replace / ignore / refuse rules of `RecordSet::insert` (no expectation)
+fn rrset_edits(r: &mut Rng) -> String {
+    let owners = ["a", "A", "b", "@", ""];
+    let datas = [
+        ("A", "1.1.1.1"), ("A", "2.2.2.2"), ("a", "1.1.1.1"), ("CNAME", "x"), ("CNAME", "X"), ("cname", "y"), ("ANAME", "x"),
+        ("NS", "n"), ("NS", "N"), ("TXT", "t"), ("TXT", "\"t\""), ("MX", "1 m"), ("MX", "1 M"), ("MX", "2 m"),
+        ("SOA", "a b 1 2 3 4 5"), ("SOA", "a b 2 2 3 4 5"),
+    ];
+    let mut s = String::new();
+    for _ in 0..r.range(2, 7) {
+        let (t, d) = *r.pick(&datas);
+        let o = *r.pick(&owners);
+        let ttl = *r.pick(&["60", "60", "70", ""]);
+        let cls = *r.pick(&["", "", "IN", "CH"]);
+        s.push_str(&format!("{o} {ttl} {cls} {t} {d}\n"));
+    }
+    s
+}
+
 fn case_line(flag: &str, origin: &GName, text: &str, exp: Option<(&GName, &[GRec])>) -> String {
     let mut l = format!("zone {flag} {} {}", origin.tok(), hex(text.as_bytes()));
     if let Some((o, recs)) = exp {
@@ -1238,7 +1245,7 @@ fn adversarial() -> Vec<String> {
 }
 
 pub fn run(o: &Opts, rec: &mut Recorder) {
-    rec.rule = "zone texts: (a) random record sets of A/AAAA/NS/CNAME/PTR/ANAME/MX/SOA/SRV/TXT/HINFO/CAA printed by an independent RFC 1035 §5 printer with per-line random layout, (b) mutations of those, (c) token soup and garbage; a case is non-trivial when the text loaded to >= 1 record or is a malformed-stream text of >= 10 characters; distinct by case line".into();
+    rec.rule = "zone texts: (a) random record sets of A/AAAA/NS/CNAME/PTR/ANAME/MX/SOA/SRV/TXT/HINFO/CAA printed by an independent RFC 1035 §5 printer with per-line random layout, (b) mutations of those, (c) token soup, repeated RRset edits and garbage; a case is non-trivial when the text loaded to >= 1 record or is a malformed-stream text of >= 10 characters; distinct by case line".into();
     for l in o.pre_lines.clone() {
         exec(&l, rec);
     }
@@ -1286,6 +1293,10 @@ pub fn run(o: &Opts, rec: &mut Recorder) {
             8 => {
                 rec.stat("stream.token-soup");
                 exec(&case_line("m", &origin, &token_soup(&mut r), None), rec);
+            }
+            _ if r.chance(1, 2) => {
+                rec.stat("stream.rrset-edits");
+                exec(&case_line("m", &origin, &rrset_edits(&mut r), None), rec);
             }
             _ => {
                 rec.stat("stream.garbage");
